@@ -20,21 +20,21 @@ type RevObj struct {
 
 // Rev describes one revision (the original file or an incremental update).
 type Rev struct {
-	Objs       []RevObj // in write order (top-level ones); packed ones are grouped into object streams
-	Free       []int    // object numbers freed by this revision
-	XRefStream bool
-	XRefNum    int   // object number of the xref stream (if XRefStream)
-	ObjStmNums []int // object numbers for object-stream containers (as many as needed are used)
-	ObjStmMax  int   // max objects per container (>=1)
-	ObjStmFilters []FilterStage
-	XRefFilters   []FilterStage // xref stream compression (may include PNG predictor 12)
-	W          [3]int // xref stream field widths (0 => chosen)
-	Root       string // key of the catalog
-	Info       string // key of the info dict ("" = none)
-	ExtraTrailer Dict
+	Objs            []RevObj // in write order (top-level ones); packed ones are grouped into object streams
+	Free            []int    // object numbers freed by this revision
+	XRefStream      bool
+	XRefNum         int   // object number of the xref stream (if XRefStream)
+	ObjStmNums      []int // object numbers for object-stream containers (as many as needed are used)
+	ObjStmMax       int   // max objects per container (>=1)
+	ObjStmFilters   []FilterStage
+	XRefFilters     []FilterStage // xref stream compression (may include PNG predictor 12)
+	W               [3]int        // xref stream field widths (0 => chosen)
+	Root            string        // key of the catalog
+	Info            string        // key of the info dict ("" = none)
+	ExtraTrailer    Dict
 	TableGapsAsFree bool // classic table: list gaps as free entries in one subsection instead of several subsections
-	ObjStmExtends bool // every object-stream container after the first carries /Extends <previous container> (ISO 32000-1 7.5.7)
-	Mutate *Mutation
+	ObjStmExtends   bool // every object-stream container after the first carries /Extends <previous container> (ISO 32000-1 7.5.7)
+	Mutate          *Mutation
 	// filled by WriteRevision: entries per object-stream container, xref stream entries
 	OutObjStmN   []int
 	OutXRefCount int
@@ -55,17 +55,17 @@ type Mutation struct {
 
 // File assembles a PDF file.
 type File struct {
-	E       *Enc
-	nums    map[string][2]int // key -> num, gen
-	offsets map[int]int64     // latest offset per object number (this revision)
+	E        *Enc
+	nums     map[string][2]int // key -> num, gen
+	offsets  map[int]int64     // latest offset per object number (this revision)
 	prevXRef int64
-	size    int
-	gens    map[int]int // current generation of each number
-	freed   map[int]bool
+	size     int
+	gens     map[int]int // current generation of each number
+	freed    map[int]bool
 	// XRefOffsets[i] is the byte offset of revision i's cross-reference section.
 	XRefOffsets []int64
 	// ObjOffsets: per revision, object number -> offset (top-level) — for the field map
-	ObjOffsets []map[int]int64
+	ObjOffsets   []map[int]int64
 	StreamRanges map[string][2]int // key -> [start,end) of encoded stream data in the file (latest)
 }
 
